@@ -348,12 +348,31 @@ async fn judge(
     let mut polls = 0u64;
     let mut confirm_pending = false;
     let mut dropped_meanwhile: Option<(String, u64)> = None;
+    let mut burst_reads = 0u64;
     let (final_snapshot, final_mismatches, delivered_at_end, settle) = loop {
         let snapshot = match adapter.discover().await {
             Ok(t) => to_seen(t),
             Err(e) => return Err(format!("discover() returned an error: {e}")),
         };
         polls += 1;
+        // a burst of reads back to back (every fourth history): readers and the watcher share the
+        // offer, and a read that coincides with an update still gets an offer, not nothing
+        if h.id % 4 == 2 && info.index >= 0 && dropped_meanwhile.is_none() {
+            let steady: Vec<String> = reference.offered_names().into_iter().filter(|n| !info.changed.contains(n) && !info.causes.contains_key(n) && !skip.contains(n)).collect();
+            if !steady.is_empty() {
+                for _ in 0..400 {
+                    let quick = match adapter.discover().await {
+                        Ok(t) => t,
+                        Err(e) => return Err(format!("discover() returned an error: {e}")),
+                    };
+                    burst_reads += 1;
+                    if let Some(name) = steady.iter().find(|n| !quick.iter().any(|t| &t.identifier == *n)) {
+                        dropped_meanwhile = Some((name.clone(), t_step.elapsed().as_millis() as u64));
+                        break;
+                    }
+                }
+            }
+        }
         // "at all times": while a re-list (or any other step) is under way, a server this step says
         // nothing new about keeps being offered - whatever is being staged, the offer is only ever
         // replaced by what was observed
@@ -400,6 +419,7 @@ async fn judge(
         tokio::time::sleep(POLL).await;
     };
     out.count("discover() snapshots compared", polls);
+    out.count("discover() calls in back-to-back bursts (continuity only)", burst_reads);
     if let Some((name, at_ms)) = &dropped_meanwhile {
         let late = cfg.lateness.max_since(t_step);
         if late < BOUND_ORDINARY / 4 {
